@@ -5,6 +5,7 @@ import (
 	"go/token"
 	"go/types"
 	"math"
+	"math/big"
 	"os"
 	"strings"
 	"unicode/utf8"
@@ -41,6 +42,8 @@ func (in *Interp) unop(fr *frame, instr *ssa.UnOp, x Value) Value {
 			return in.tt.BVNeg(x)
 		case float64:
 			return -x
+		case *SymFloat:
+			return in.mkFloat(in.tt.RBin(OISub, in.tt.Real(new(big.Rat)), x.t))
 		case complex128:
 			return -x
 		}
@@ -69,6 +72,12 @@ func (in *Interp) binop(op token.Token, xt types.Type, x, y Value, yt types.Type
 		return in.equalTerm(xt, x, y)
 	case token.NEQ:
 		return in.tt.Not(in.equalTerm(xt, x, y))
+	}
+	if _, ok := x.(*SymFloat); ok {
+		return in.floatBinop(op, x, y)
+	}
+	if _, ok := y.(*SymFloat); ok {
+		return in.floatBinop(op, x, y)
 	}
 	switch xv := x.(type) {
 	case *Term:
@@ -303,8 +312,13 @@ func (in *Interp) equalTerm(t types.Type, x, y Value) *Term {
 		}
 		return in.tt.Eq(xv, yv)
 	case float64:
+		if _, isSym := y.(*SymFloat); isSym {
+			return in.tt.Eq(in.floatReal(x), in.floatReal(y))
+		}
 		yv, ok := y.(float64)
 		return in.mkBool(ok && xv == yv)
+	case *SymFloat:
+		return in.tt.Eq(in.floatReal(x), in.floatReal(y))
 	case complex128:
 		yv, ok := y.(complex128)
 		return in.mkBool(ok && xv == yv)
@@ -483,7 +497,16 @@ func (in *Interp) conv(tdst, tsrc types.Type, x Value) Value {
 			return in.tt.ZExt(sv, w)
 		case db.Info()&types.IsFloat != 0:
 			if !sv.IsConst() {
-				panic(unsupported{"symbolic int to float"})
+				if db.Kind() == types.Float32 {
+					panic(unsupported{"symbolic int to float32"})
+				}
+				var i *Term
+				if isSigned(sb) {
+					i = in.signedToInt(sv)
+				} else {
+					i = in.tt.BV2Nat(sv)
+				}
+				return in.intToFloat(i)
 			}
 			var f float64
 			if isSigned(sb) {
@@ -500,6 +523,33 @@ func (in *Interp) conv(tdst, tsrc types.Type, x Value) Value {
 				panic(unsupported{"symbolic rune to string"})
 			}
 			return string(rune(sext64(sv.cv, sv.sort.W)))
+		}
+	case *SymFloat:
+		db, isBasic := ud.(*types.Basic)
+		if !isBasic {
+			break
+		}
+		switch {
+		case db.Info()&types.IsFloat != 0:
+			if db.Kind() == types.Float32 {
+				panic(unsupported{"symbolic float64 to float32"})
+			}
+			return sv
+		case db.Info()&types.IsInteger != 0:
+			w := in.intWidth(db)
+			i := in.truncInt(sv.t)
+			// Go leaves out-of-range float->int conversions implementation-defined: require the range
+			var lo, hi *big.Int
+			if isSigned(db) {
+				lo, hi = new(big.Int).Neg(pow2(w-1)), pow2(w-1)
+			} else {
+				lo, hi = big.NewInt(0), pow2(w)
+			}
+			inRange := in.tt.And(in.tt.ICmp(OILe, in.tt.Int(lo), i), in.tt.ICmp(OILt, i, in.tt.Int(hi)))
+			if !in.branch(inRange) {
+				panic(unsupported{"float to integer conversion out of range (implementation-defined in Go)"})
+			}
+			return in.tt.Int2BV(w, i)
 		}
 	case float64:
 		db, isBasic := ud.(*types.Basic)
